@@ -188,8 +188,12 @@ def harness_error(msg):
 
 def run_shard(job):
     cfg, args, timeout = job["cfg"], job["args"], job["timeout"]
-    prefix = build(cfg)
-    env = env_for(cfg)
+    if job.get("python"):
+        prefix = [sys.executable, os.path.join(VERIF, job["python"])]
+        env = dict(os.environ)
+    else:
+        prefix = build(cfg)
+        env = env_for(cfg)
     extra_env = dict(job.get("env", {}))
     if "MIRIFLAGS_EXTRA" in extra_env:
         # One scheduler seed per shard, so that shards explore different schedules.
@@ -224,6 +228,10 @@ def run_shard(job):
     return res
 
 
+def work_dir(prop, tier, seed):
+    return os.path.join(CACHE, "work", "%s-%s-%d-%s" % (prop, tier, seed, repo_key()))
+
+
 def jobs_for(prop, tier, seed, only_leg=None):
     plan = plans.PLANS[prop]
     legs = plan["legs"][tier]
@@ -235,14 +243,19 @@ def jobs_for(prop, tier, seed, only_leg=None):
         n = leg.get("shards", 1)
         of = leg.get("of", n)
         for s in range(n):
-            args = [plan["driver"], "tier=%s" % tier, "seed=%d" % seed, "shard=%d" % s, "nshards=%d" % of, "cfg=%s" % leg["cfg"], "tmp=%s" % tmp]
+            args = [leg.get("driver", plan["driver"]), "tier=%s" % tier, "seed=%d" % seed, "shard=%d" % s, "nshards=%d" % of, "cfg=%s" % leg["cfg"], "tmp=%s" % tmp]
             if leg.get("budget"):
                 args.append("budget=%d" % leg["budget"])
+            if leg.get("dir"):
+                args.append("dir=%s" % work_dir(prop, tier, seed))
             if leg.get("part"):
                 args.append("part=%s" % leg["part"])
             if leg.get("scale"):
                 args.append("scale=%d" % leg["scale"])
-            jobs.append({"cfg": leg["cfg"], "args": args, "leg": li, "shard": s, "timeout": leg.get("timeout", 1800 if tier == "quick" else 7200),
+            if leg.get("python"):
+                # A Python stage of the pipeline (the independent format codec); prints the same VMON-RESULT line.
+                args = [a.format(dir=work_dir(prop, tier, seed), shard=s, nshards=of, seed=seed) for a in leg["pyargs"]]
+            jobs.append({"cfg": leg["cfg"], "args": args, "leg": li, "shard": s, "stage": leg.get("stage", 0), "python": leg.get("python"), "only_crash": bool(leg.get("driver")), "timeout": leg.get("timeout", 1800 if tier == "quick" else 7200),
                          "env": leg.get("env", {}), "weight": leg.get("weight", 1), "seed": seed})
     return jobs
 
@@ -267,7 +280,7 @@ def classify_crash(res):
     rc = res["rc"]
     err = res["stderr_tail"]
     cfg = res["job"]["cfg"]
-    if res["timed_out"]:
+    if res["timed_out"] or res["job"].get("python"):
         return None
     if "ERROR: AddressSanitizer" in err:
         m = re.search(r"ERROR: AddressSanitizer: (\S+)", err)
@@ -297,14 +310,22 @@ def run_property(prop, tier, seed):
     t0 = time.time()
     plan = plans.PLANS[prop]
     jobs = jobs_for(prop, tier, seed)
-    cfgs = sorted(set(j["cfg"] for j in jobs))
+    cfgs = sorted(set(j["cfg"] for j in jobs if not j.get("python")))
     # Builds in sequence (cargo serialises on the package cache anyway); shards in parallel.
     for c in cfgs:
         build(c)
+    if plan.get("work_dir"):
+        wd = work_dir(prop, tier, seed)
+        shutil.rmtree(wd, ignore_errors=True)
+        os.makedirs(wd, exist_ok=True)
     results = []
-    with concurrent.futures.ThreadPoolExecutor(max_workers=JOBS) as ex:
-        for r in ex.map(run_shard, sorted(jobs, key=lambda j: -j["weight"])):
-            results.append(r)
+    for stage in sorted(set(j["stage"] for j in jobs)):
+        batch = [j for j in jobs if j["stage"] == stage]
+        with concurrent.futures.ThreadPoolExecutor(max_workers=JOBS) as ex:
+            for r in ex.map(run_shard, sorted(batch, key=lambda j: -j["weight"])):
+                results.append(r)
+    if plan.get("work_dir"):
+        shutil.rmtree(work_dir(prop, tier, seed), ignore_errors=True)
 
     evals = 0
     checks = 0
@@ -351,6 +372,10 @@ def run_property(prop, tier, seed):
             if len(samples) < 8 and s not in samples:
                 samples.append(s)
         for k, v in res["counters"].items():
+            if k.startswith("max:"):
+                # Per-process measurements that must not be summed over shards (e.g. distinct methods covered).
+                counters[k[4:]] = max(counters.get(k[4:], 0), v)
+                continue
             counters[k] = counters.get(k, 0) + v
             ck = "%s/%s" % (job["cfg"], k)
             counters[ck] = counters.get(ck, 0) + v
@@ -362,8 +387,10 @@ def run_property(prop, tier, seed):
             sets[k] = sorted(set(sets.get(k, [])) | set(v))
         oob += res.get("oob_count", 0)
         builds[job["cfg"]] = res.get("build", {})
-        for v in res["violations"]:
-            violations.append((v["sig"], v["detail"], job))
+        if not job.get("only_crash"):
+            # Legs that replay another property's workload under a sanitizer contribute process-level verdicts only.
+            for v in res["violations"]:
+                violations.append((v["sig"], v["detail"], job))
         for i in res["inconclusive"]:
             inconclusive.append("%s shard %d: %s" % (job["cfg"], job["shard"], i))
 
